@@ -1,6 +1,6 @@
 (** Correspondence check for C09: the model of chunkSegment / the pacing plan / the too-early
     decision is run on the inputs the implementation ran on. *)
-From Verif Require Import GoSem Chunk.
+From Verif Require Import GoSem Chunk Timeline.
 
 Record c09case := {
   c_id : Z;
@@ -8,7 +8,10 @@ Record c09case := {
   c_hasStyp : bool;
   c_newTime : Z; c_newNr : Z; c_newDur : Z;
   c_chunkDur : option Z;      (* Some: chunkSegment called directly (hook); None: from the three below *)
-  c_segDurMS : Z; c_atoMS : Z; c_ts : Z;
+  c_segDurMS : Z;
+  c_atoMS : Z;                (* int(ato*1000) as evaluated by Go: enters the chunk duration *)
+  c_atoChk : Z;               (* ato in exact milliseconds: enters the availability decision *)
+  c_ts : Z;
   c_startS : Z;
   c_availMS : Z;              (* advertised end of the segment on the wall clock; < 0: no status decision *)
   c_nowMS : Z;
@@ -27,7 +30,10 @@ Definition case_chunkDur (c : c09case) : Z :=
   match c_chunkDur c with Some d => d | None => chunkDurOf (c_segDurMS c) (c_atoMS c) (c_ts c) end.
 
 Definition run_case (c : c09case) : Z * list (bool * Z * Z * Z * Z) * list Z :=
-  if (0 <=? c_availMS c) && tooEarly (c_availMS c) (c_atoMS c) (c_nowMS c) then (1, [], [])
+  if (0 <=? c_availMS c) && tooEarly (c_availMS c) (c_atoChk c) (c_nowMS c) then (1, [], [])
+  else if (0 <=? c_availMS c) &&
+          match checkTime (c_availMS c) 1000 (c_nowMS c) 60 (Some (c_atoChk c)) with TvGone => true | _ => false end
+       then (3, [], [])   (* 410 Gone: default timeShiftBufferDepth 60 s + margin *)
   else match chunkSegment (mk_samples (c_durs c)) (c_hasStyp c) (c_newTime c) (c_newNr c) (c_newDur c) (case_chunkDur c) with
        | Panic _ => (2, [], [])
        | Err _ => (3, [], [])
